@@ -46,6 +46,9 @@ class _Rec:
         self.notes = []
         self.loops_on = False    # C09 (worklist tie): record the pending lists at the loop boundaries of run_to_completion
         self.loops = []          # boundary records since the last `take_loops()`
+        self.regnames = {}       # (flow uid, head uid) -> event name the head's match element named WHEN it was last registered
+        self.stmt_names = {}     # (flow id, position) -> set of event names heads were registered with at that statement
+        self.refregs = []        # registrations on reference match elements since the last `take_refregs()` (tie of Models/RefName.lean)
 
 
 REC = _Rec()
@@ -92,6 +95,72 @@ def name_at(state, flow_state, pos):
         return "!raise"
     finally:
         REC.uid = saved
+
+
+def waited_name_at(state, flow_state, pos):
+    """The event name the match element at `pos` waits for NOW, the way the DISPATCHER sees it: an incoming event is compared
+    with `get_event_from_element(state, flow_state, element)` (`_compute_event_matching_score`), evaluated on the current
+    context — not with whatever name the index was given when the head was registered.  None if there is no match element,
+    '!raise' if the indexer's own name function raises (the head cannot be registered then); if only the full evaluation
+    raises (argument expressions), the name function's answer.  Side-effect free on the uid counter."""
+    nm = name_at(state, flow_state, pos)
+    if nm is None or nm == "!raise":
+        return nm
+    el = state.flow_configs[flow_state.flow_id].elements[pos]
+    saved = REC.uid
+    try:
+        ev = sm.get_event_from_element(state, flow_state, el)
+        return ev.name if isinstance(getattr(ev, "name", None), str) else nm
+    except Exception:  # noqa
+        return nm
+    finally:
+        REC.uid = saved
+
+
+def obj_json(v, path):
+    """A context value as `get_event_name_from_element` sees it (Models/RefName.lean::Obj): its class, and along the member
+    path the attribute / key the walk takes next (absent: `hasattr` false / key missing)."""
+    if isinstance(v, fl.Action):
+        d = {"k": "action", "n": v.name}
+    elif isinstance(v, fl.FlowState):
+        d = {"k": "flow"}
+    elif isinstance(v, fl.Event):
+        d = {"k": "event", "n": v.name}
+    elif isinstance(v, dict):
+        d = {"k": "dict"}
+    else:
+        d = {"k": "other"}
+    if path:
+        a = path[0]
+        if isinstance(v, dict):
+            if a in v:
+                d["a"] = {a: obj_json(v[a], path[1:])}
+        elif a is not None and hasattr(v, a):
+            d["a"] = {a: obj_json(getattr(v, a), path[1:])}
+    return d
+
+
+def ref_registration(state, flow_state, head):
+    """None unless the head stands on a match element over a reference (`match $ref.Finished()` …)"""
+    try:
+        el = state.flow_configs[flow_state.flow_id].elements[head.position]
+        spec = el.spec
+        var = spec.var_name
+        if var is None:
+            return None
+        members = None if spec.members is None else [m.name for m in spec.members]
+        if members is not None and (not members or any(not isinstance(m, str) for m in members)):
+            return None
+        rec = {"var": var, "members": members, "flow_id": flow_state.flow_id, "pos": head.position, "key": [flow_state.uid, head.uid]}
+        rec["obj"] = obj_json(flow_state.context[var], (members or [])[:-1]) if var in flow_state.context else None
+        return rec
+    except Exception:  # noqa
+        return None
+
+
+def take_refregs():
+    r, REC.refregs = REC.refregs, []
+    return r
 
 
 def _flow_of(head):
@@ -285,6 +354,29 @@ def install():
 
     orig_changed = statemachine._flow_head_changed
     orig_remove = statemachine._remove_head_from_event_matching_structures
+    orig_add_head = statemachine._add_head_to_event_matching_structures
+
+    def add_head(state, flow_state, head):
+        # what the element names at the moment of the registration (for the oracle: a wrong bucket is either wrong from the
+        # start, or the name changed while the head waited)
+        rec = None
+        if REC.state is state:
+            nm = waited_name_at(state, flow_state, head.position)
+            REC.regnames[(flow_state.uid, head.uid)] = [nm, head.position]
+            REC.stmt_names.setdefault((flow_state.flow_id, head.position), set()).add(nm)
+            rec = ref_registration(state, flow_state, head)
+        if rec is None:
+            return orig_add_head(state, flow_state, head)
+        # a reference match: the referent as the name computation sees it, and what the interpreter did with it
+        try:
+            r = orig_add_head(state, flow_state, head)
+        except Exception as e:  # noqa
+            rec["raise"] = type(e).__name__
+            REC.refregs.append(rec)
+            raise
+        rec["bucket"] = state.event_matching_heads_reverse_map.get(flow_state.uid + head.uid)
+        REC.refregs.append(rec)
+        return r
     orig_add_inst = statemachine.add_new_flow_instance
     orig_cleanup = statemachine._clean_up_state
     _ORIG.update(changed=orig_changed, remove=orig_remove, add_inst=orig_add_inst, cleanup=orig_cleanup)
@@ -376,6 +468,7 @@ def install():
     statemachine._advance_head_front = advance_head_front
     statemachine.log.warning = warning
     statemachine._flow_head_changed = flow_head_changed
+    statemachine._add_head_to_event_matching_structures = add_head
     statemachine._remove_head_from_event_matching_structures = remove_head
     statemachine.add_new_flow_instance = add_new_flow_instance
     statemachine._clean_up_state = clean_up_state
